@@ -18,6 +18,7 @@ func makeGroups(c *vkit.Ctx) []*group {
 	gs = append(gs, e4RewriteLengths(c)...)
 	gs = append(gs, e6Random(c)...)
 	gs = append(gs, e8NearBudget(c)...)
+	gs = append(gs, e9OverBuffer(c)...)
 	gs = append(gs, e3Escapes(c)...)
 	gs = append(gs, e5Timestamps(c)...)
 	return gs
@@ -468,6 +469,45 @@ func e8NearBudget(c *vkit.Ctx) []*group {
 				emit(stamped(r, vals, flag), focus{
 					sig:        fmt.Sprintf("e8|buf%d|%s|slack%d|%s", g.a.bufLen(), fieldSig(g.a, pos), d, ck),
 					nontrivial: d < 64})
+			}
+		}
+		gs = append(gs, g)
+	}
+	return gs
+}
+
+// e9: records whose serialized form does NOT fit the serializer's preallocated buffer although every single input value is
+// modest and the record's RawLength is small (records made by transforms that copy fields, or with long header fields): the
+// property quantifies over all field values "and beyond", so they must come out as exactly the same kind of event.
+func e9OverBuffer(c *vkit.Ctx) []*group {
+	nGroups := c.N(60, 1500)
+	perGroup := c.N(30, 60)
+	var gs []*group
+	for k := 0; k < nGroups; k++ {
+		k := k
+		r := c.Rand("e9cfg", k)
+		n := 3 + r.Intn(8)
+		recBytes := []int{recSmall, recCompact}[k%2]
+		a := sampleCfg(r, plainNames(n), recBytes, false)
+		b := a.clone()
+		if r.Intn(2) == 0 {
+			b = sampleCfg(r, plainNames(n), recBytes, false)
+		}
+		g := &group{id: fmt.Sprintf("e9-over/%05d", k), a: a, b: b, over: true}
+		g.gen = func(g *group, emit func(*recSpec, focus)) {
+			r := c.Rand("e9rec", k)
+			buf := g.a.bufLen()
+			for i := 0; i < perGroup; i++ {
+				vals := baseVals(r, n)
+				// one to three values that together go from just below to a few times the buffer
+				total := []int{buf - 64, buf - 1, buf, buf + 1, buf + 300, 2 * buf, 3*buf + 17}[r.Intn(7)]
+				parts := 1 + r.Intn(3)
+				for p := 0; p < parts; p++ {
+					ck := contentKinds[r.Intn(len(contentKinds))]
+					vals[r.Intn(n)] = genContent(r, total/parts+1, ck)
+				}
+				flag := r.Intn(4) == 0
+				emit(stamped(r, vals, flag), focus{sig: fmt.Sprintf("e9|%s|total%+d|parts%d|u%v", sizeClass(n), total-buf, parts, flag), nontrivial: true})
 			}
 		}
 		gs = append(gs, g)
